@@ -734,5 +734,45 @@ pub open spec fn new_admins_entitled(room0: Room, old_s: Seq<UserNode>, s: Seq<U
             // [merged_room_new_admins_entitled] every admin entry not already held was authored by a key that is an admin at the entry's date
             r is Ok ==> new_admins_entitled(*room, old_room_node.admin_nodes@, final(room_node).admin_nodes@),
 //@ end
+// ================================================================= dispatch: a received definition is merged with what is held, or checked as new
+//@ include common/keys.rs
+//@ extract src/database/authorisation_service.rs :: struct RoomAuthorisations
+//@ end
+/// facts only the contracts of the two callees can establish (their bodies are under contract in u3b_import)
+pub uninterp spec fn shape_checked(n: RoomNode) -> bool;       // RoomNode::check_consistency accepted it  (u3b#room_shape_consistent)
+pub uninterp spec fn checked_as_new(n: RoomNode) -> bool;      // prepare_new_room accepted it             (u3b#new_room_whole_history_entitled)
+impl RoomNode {
+    #[verifier::external_body]
+    pub fn check_consistency(&self) -> (r: Result<()>) ensures r is Ok ==> shape_checked(*self) { unimplemented!() }
+}
+#[verifier::external_body]
+pub fn prepare_new_room(room_node: &RoomNode) -> (r: Result<()>) ensures r is Ok ==> checked_as_new(*room_node) { unimplemented!() }
+
+//@ extract src/database/authorisation_service.rs :: impl RoomAuthorisations / fn prepare_room_node
+//@ result r
+//@ rewrite E16 "(?s)\"[A-Za-z, _]+\"\s*\.to_string\(\)" => "fmt_stub()" x*
+//@ spec
+        requires
+            // the definition already held (read back from storage) names each group once and its groups are those of the in-memory room: ASSUMED of the storage / memory pair (C10)
+            self.rooms@.contains_key(old(room_node).node.id) && old_room_node is Some ==>
+                distinct_group_ids(old_room_node->Some_0.auth_nodes@)
+                && forall|i: int| 0 <= i < old_room_node->Some_0.auth_nodes@.len() ==> self.rooms@[old(room_node).node.id].authorisations@.contains_key((#[trigger] old_room_node->Some_0.auth_nodes@[i]).node.id),
+        ensures
+            // [received_definition_shape_checked_first] nothing is accepted before the shape of the received definition was checked
+            r is Ok ==> shape_checked(*old(room_node)),
+            // [held_room_needs_the_definition_held] a definition for a room already held is never accepted without the definition held to merge it with
+            self.rooms@.contains_key(old(room_node).node.id) && old_room_node is None ==> r is Err,
+            // [held_room_is_merged_never_replaced] a definition for a room already held is merged with it: every admin entry and reference held is kept, every new admin entry is entitled, every group held is kept and every other group is a legitimately authored new group
+            r is Ok && self.rooms@.contains_key(old(room_node).node.id) ==>
+                keeps_users(old_room_node->Some_0.admin_nodes@, final(room_node).admin_nodes@)
+                && keeps_edges(old_room_node->Some_0.admin_edges@, final(room_node).admin_edges@)
+                && keeps_edges(old_room_node->Some_0.auth_edges@, final(room_node).auth_edges@)
+                && new_admins_entitled(self.rooms@[old(room_node).node.id], old_room_node->Some_0.admin_nodes@, final(room_node).admin_nodes@)
+                && exists|acc: Room| admin_ext(self.rooms@[old(room_node).node.id], acc) && keeps_groups(acc, old_room_node->Some_0.auth_nodes@, final(room_node).auth_nodes@)
+                    && new_groups_entitled(acc, old_room_node->Some_0.auth_nodes@, final(room_node).auth_nodes@),
+            // [unknown_room_checked_as_new] a definition for a room not held is accepted only through the whole-history check of a new room, and is then stored
+            r is Ok && !self.rooms@.contains_key(old(room_node).node.id) ==> checked_as_new(*final(room_node)) && r->Ok_0,
+//@ end
+
 } // verus!
 fn main() {}
